@@ -375,7 +375,19 @@ func (f *Frame) dispatch(st *State, e *ast.CallExpr, fn *types.Func, recv *Term,
 			all = append(all, recv)
 		}
 		all = append(all, args...)
-		return f.uninterpCall(st, "pure!"+shortFuncName(full), nil, all, sig)
+		rs := f.uninterpCall(st, "pure!"+shortFuncName(full), nil, all, sig)
+		f.pureAxiom(ct, sig)
+		if len(ct.Ensures) > 0 && !f.inSpec && c.inQuant == 0 && c.discovery == 0 {
+			// what the contract says about the result holds of this application (proved of the body when the
+			// contract is verified, assumed when it is trusted)
+			if err := f.eng.bindContract(ct); err != nil {
+				panic(unsupported{err.Error()})
+			}
+			f.pureRes = rs
+			f.contractCall(st, e, ct, recv, args, sig)
+			f.pureRes = nil
+		}
+		return rs
 	}
 	if ct := f.eng.contracts[full]; ct != nil && !f.inSpec {
 		if err := f.eng.bindContract(ct); err != nil {
@@ -961,4 +973,89 @@ func (f *Frame) writeBackSorted(st *State, fi *FuncInfo, e *ast.CallExpr) {
 			}
 		}
 	}
+}
+
+// pureAxiom: for a function declared pure whose contract has ensures clauses, the clauses hold of EVERY application of
+// the uninterpreted function (requires ==> ensures, universally over the parameters). The axiom is emitted once per
+// verification context. It is proved of the body where the contract is verified, assumed where it is trusted; it is
+// not used when the function itself is being verified (its result there comes from the body, not from the symbol).
+func (f *Frame) pureAxiom(ct *Contract, sig *types.Signature) {
+	c := f.c
+	if len(ct.Ensures) == 0 || c.discovery > 0 {
+		return
+	}
+	if c.pureAxioms == nil {
+		c.pureAxioms = map[string]bool{}
+	}
+	if c.pureAxioms[ct.Full] {
+		return
+	}
+	c.pureAxioms[ct.Full] = true
+	if f.top != nil && f.top.contract == ct {
+		return
+	}
+	if err := f.eng.bindContract(ct); err != nil {
+		panic(unsupported{err.Error()})
+	}
+	fi := ct.fi
+	info := fi.Pkg.TypesInfo
+	pos := fi.Decl.Body.Lbrace + 1
+	bindSt := newState()
+	cf := &Frame{c: c, eng: f.eng, info: info, fi: fi, contract: ct, depth: f.depth + 1, top: f.top, parent: f}
+	var bvs, all []*Term
+	bind := func(obj types.Object) {
+		bv := c.bvar(obj.Name(), c.sortOf(obj.Type()))
+		bvs = append(bvs, bv)
+		all = append(all, bv)
+		bindSt.vars[obj] = &Var{Val: bv, Typ: obj.Type()}
+	}
+	c.inQuant++
+	defer func() { c.inQuant-- }()
+	if fi.Decl.Recv != nil && len(fi.Decl.Recv.List) > 0 && len(fi.Decl.Recv.List[0].Names) > 0 {
+		if obj := info.Defs[fi.Decl.Recv.List[0].Names[0]]; obj != nil {
+			bind(obj)
+		}
+	}
+	if fi.Decl.Type.Params != nil {
+		for _, fl := range fi.Decl.Type.Params.List {
+			for _, n := range fl.Names {
+				if obj := info.Defs[n]; obj != nil {
+					bind(obj)
+				}
+			}
+		}
+	}
+	if len(all) != sig.Params().Len()+func() int {
+		if sig.Recv() != nil {
+			return 1
+		}
+		return 0
+	}() {
+		return // unnamed parameters: no axiom
+	}
+	rs := f.uninterpCall(bindSt, "pure!"+shortFuncName(ct.Full), nil, all, sig)
+	cf.resVals = map[types.Object]*Term{}
+	for i := range rs {
+		if i < len(ct.resObjs) {
+			cf.resVals[ct.resObjs[i]] = rs[i]
+		}
+	}
+	var pre, post []*Term
+	for _, cl := range ct.Requires {
+		ex, sinfo, err := f.eng.clauseExpr(ct, cl, pos)
+		if err != nil {
+			panic(unsupported{err.Error()})
+		}
+		pre = append(pre, cf.specEval(bindSt, bindSt, ex, sinfo))
+	}
+	for _, cl := range ct.Ensures {
+		ex, sinfo, err := f.eng.clauseExpr(ct, cl, fi.Decl.Body.Rbrace)
+		if err != nil {
+			panic(unsupported{err.Error()})
+		}
+		post = append(post, cf.specEval(bindSt, bindSt, ex, sinfo))
+	}
+	ax := Forall(bvs, Implies(And(pre...), And(post...)))
+	c.defs = append(c.defs, fmt.Sprintf("(assert %s)", renderTerm(ax)))
+	c.note("pure function " + shortFuncName(ct.Full) + ": its ensures clauses are used as an axiom about every application")
 }
